@@ -108,7 +108,7 @@ func (fr *frame) execBlock(b *ssa.BasicBlock, st *bstate) {
 		case *ssa.MakeChan:
 			r := f.newAllocRef(fr.inLoop(b))
 			fr.vals[x] = Val{K: KRef, T: x.Type(), Tm: r}
-			st.heap = f.setGhostAt(st.heap, "chan.closed", sortBool, r, "false")
+			st.heap = f.setGhostAt(st.heap, chanClosedGhost(x.Type()), sortBool, r, "false")
 			f.exact["MakeChan"]++
 		case *ssa.MakeClosure:
 			fn := x.Fn.(*ssa.Function)
@@ -135,7 +135,7 @@ func (fr *frame) execBlock(b *ssa.BasicBlock, st *bstate) {
 			// sending on a closed channel panics: sweep kind "close"
 			if f.sweep["close"] {
 				ch := fr.val(x.Chan)
-				closed := f.ghostAt(st.heap, "chan.closed", sortBool, ch.Tm)
+				closed := f.ghostAt(st.heap, chanClosedGhost(x.Chan.Type()), sortBool, ch.Tm)
 				f.oblige(st, fmt.Sprintf("%s#send-on-open:%s", fnShortName(fr.fn), valueLabel(x.Chan)), "safety", f.sweepTags, not(closed), "send on channel that may be closed", posStr(f.e.fset, x.Pos()))
 			}
 			f.exact["Send"]++
@@ -597,6 +597,11 @@ func (fr *frame) selectInstr(x *ssa.Select, st *bstate) {
 	fr.noteSelect(x, st)
 }
 
+// recovers: the function (or the function it is inlined into) has a deferred recover().
+func (fr *frame) recovers() bool {
+	return fr.fn.Recover != nil
+}
+
 func (fr *frame) typeAssert(x *ssa.TypeAssert, st *bstate) {
 	f := fr.f
 	v := fr.val(x.X)
@@ -608,7 +613,7 @@ func (fr *frame) typeAssert(x *ssa.TypeAssert, st *bstate) {
 		fr.vals[x] = Val{K: KTuple, T: x.Type(), Fs: []Val{f.nameVal("ta.v", f.iteVal(okN, payload, z)), boolVal(okN)}}
 		return
 	}
-	if f.sweep["typeassert"] {
+	if f.sweep["typeassert"] && !fr.recovers() {
 		f.oblige(st, fmt.Sprintf("%s#typeassert:%s", fnShortName(fr.fn), valueLabel(x)), "safety", f.sweepTags, okN,
 			"single-result type assertion cannot fail", posStr(f.e.fset, x.Pos()))
 	}
@@ -644,6 +649,9 @@ func (fr *frame) unop(x *ssa.UnOp, st *bstate) {
 		fr.checkGuardedAccess(x.X, st, false, x.Pos())
 		lv := f.load(st.heap, v, pt.Elem())
 		lv = f.nameVal("ld."+x.Name(), lv)
+		if lv.K == KRef && f.lastLoadKey != "" && !f.dirtyAll && !f.dirtyKey[f.lastLoadKey] && !strings.HasPrefix(f.lastLoadKey, "L") {
+			f.assumeOldRef(st, lv)
+		}
 		fr.vals[x] = lv
 		f.exact["Load"]++
 	case token.ARROW:
